@@ -260,6 +260,19 @@ def attach(tr):
 
     _wrap(BaseOrder, "_update_status", mk_update_status)
 
+    def mk_repl(orig):
+        def create_order_replacement(self, order, new_price, size, date_time_created):
+            rep = orig(self, order, new_price, size, date_time_created)
+            # the replacement belongs to the client of the order it replaces
+            rep._vf_expected_client = order.client
+            rep._vf_replaces = TR.okey(order)
+            TR.okey(rep)
+            return rep
+
+        return create_order_replacement
+
+    _wrap(Trade, "create_order_replacement", mk_repl)
+
     def mk_tstatus(orig):
         def _update_status(self, status):
             prev = self.status
@@ -603,6 +616,10 @@ def attach(tr):
             r = orig(self, event)
             m = self.markets.markets.get(mid)
             rec["closed_after"] = m.closed if m is not None else None
+            try:
+                rec["book_pt_after"] = m.market_book.publish_time_epoch if (m is not None and m.market_book is not None) else None
+            except Exception:
+                rec["book_pt_after"] = None
             rec["end_seq"] = TR.nseq()
             return r
 
